@@ -55,6 +55,7 @@ class GammaPriorConcentrationSampler(object):
 
             new_value = gamma.rvs(shape, scale=(1 / rate), random_state=self._rng)
 
-            new_value = max(new_value, 1e-10)  # Catch numerical error
+        # Catch numerical error: a gamma draw with a small shape can underflow to exactly 0.0 (in both branches)
+        new_value = max(new_value, 1e-10)
 
         return new_value
